@@ -97,6 +97,8 @@ type Violation struct {
 	Trail   []int             `json:"trail"`
 	Log     []LogEntry        `json:"log,omitempty"`
 	Sched   []int             `json:"sched,omitempty"`
+	Free    []int             `json:"free,omitempty"`
+	tape    *replayTape
 }
 
 type LogEntry struct {
@@ -177,6 +179,7 @@ type Exec struct {
 	monClock      []int
 	inPure        bool
 	guards        []guardedCell
+	fnOwn         map[*ssa.Function]int
 }
 
 type Thread struct {
@@ -206,7 +209,7 @@ func (g *Engine) newExec(harness string, trail []int, s *Solver) *Exec {
 	e := &Exec{eng: g, ts: NewTermStore(), trail: trail, harness: harness, unwind: g.cfg.Unwind,
 		parked: make(chan struct{}), sleep: map[int]bool{}, globals: map[*ssa.Global]*Cell{},
 		syncObjs: map[*Cell]*SyncState{}, nondetSeq: map[string]int{}, covers: map[string]bool{},
-		asserts: map[string]int{}, stubs: map[string]int{}}
+		asserts: map[string]int{}, stubs: map[string]int{}, fnOwn: map[*ssa.Function]int{}}
 	e.ps = &PathSolver{s: s, ts: e.ts}
 	e.now = e.ts.BV(64, 0)
 	e.yieldObj, e.monObj = new(int), new(int)
@@ -379,7 +382,7 @@ func (e *Exec) violation(kind, label, msg string, model map[string]uint64) {
 		}
 	}
 	v := &Violation{Harness: e.harness, Kind: kind, Label: label, Msg: msg, Sig: sig, Model: model,
-		Trail: append([]int{}, e.taken...), Log: append([]LogEntry{}, e.log...), Sched: append([]int{}, e.schedTrace...)}
+		Trail: append([]int{}, e.taken...), Log: append([]LogEntry{}, e.log...), Sched: append([]int{}, e.schedTrace...), Free: append([]int{}, e.freeTaken...)}
 	e.violations = append(e.violations, v)
 }
 
@@ -451,6 +454,9 @@ func (e *Exec) newThread(name string, start func(t *Thread)) *Thread {
 // visible parks the thread at a visible operation until the scheduler picks it.
 func (t *Thread) visible(op *SyncOp) {
 	e := t.e
+	if t.inMon || t.id < 0 {
+		panic(pathAbort{"fatal", "visible operation " + op.kind + " inside vMon/vBlockUntil body at " + op.pos})
+	}
 	if !e.multi && op.enabled() && op.kind != "quiesce" {
 		return // single-threaded fast path: nothing to interleave with
 	}
